@@ -20,9 +20,9 @@
 //!   bytes; a non-EINTR error answer is never swallowed; EINTR alone never fails the call.
 //! * `print!` family (E2) — with `write(2)` lengths clamped by the `sc` interposer (real short
 //!   writes into a pipe replacing fd 1/2) the pipe receives exactly the formatted bytes.
-mod gen;
-mod print;
-mod script;
+pub mod gen;
+pub mod print;
+pub mod script;
 
 use serde::de::DeserializeOwned;
 use serde::Serialize;
